@@ -1889,3 +1889,19 @@ Proof.
     apply combine_single; assumption.
   - eapply merge_distinct_lemma; eauto.
 Qed.
+
+(* the period rule under the complement of the F25 class *)
+Lemma in_F25_false : forall ps, in_F25 ps = false -> Forall (fun p => 0 <= p_period p) ps.
+Proof.
+  intros ps H. apply Forall_forall. intros p Hp. unfold in_F25 in H.
+  destruct (p_period p <? 0) eqn:E; [|apply Z.ltb_ge in E; exact E].
+  assert (existsb (fun p => p_period p <? 0) ps = true) by (apply existsb_exists; eauto). congruence.
+Qed.
+
+Theorem merge_period_max_lemma : forall p0 rest q,
+  in_F25 (p0 :: rest) = false -> merge (p0 :: rest) = MOk q ->
+  p_period q = spec_period (map p_period (p0 :: rest)).
+Proof.
+  intros p0 rest q F H. destruct (merge_headers_lemma p0 rest q H) as (_ & _ & P & _).
+  apply P. apply in_F25_false. exact F.
+Qed.
